@@ -1541,10 +1541,21 @@ func (m *manager) CloseAccount(ctx context.Context, traderKey *btcec.PublicKey,
 		return nil, err
 	}
 
-	// Make sure the account hasn't already been closed, or is in the
-	// process of doing so.
-	if account.State == StatePendingClosed || account.State == StateClosed {
+	// The account can only be closed once its latest output has confirmed
+	// (open or expired). Only in those states is the output being watched
+	// for its spend, so the closing transaction would otherwise never be
+	// noticed and the account would stay pending closed. Make sure the
+	// account hasn't already been closed, or is in the process of doing
+	// so, either.
+	switch account.State {
+	case StateOpen, StateExpired:
+
+	case StatePendingClosed, StateClosed:
 		return nil, errors.New("account has already been closed")
+
+	default:
+		return nil, fmt.Errorf("account must be in either of %v to "+
+			"be closed", []State{StateOpen, StateExpired})
 	}
 
 	// Determine the appropriate witness type for the account input based on
